@@ -150,9 +150,10 @@ public:
   {
     if(size > _capacity)
     {
+      usize oldSize = bufferEnd - bufferStart;
         _capacity = size;
       byte* newBuffer = (byte*)new char[size + 1];
-      Memory::copy(newBuffer, bufferStart, bufferEnd - bufferStart);
+      Memory::copy(newBuffer, bufferStart, oldSize < size ? oldSize : size);
       delete[] (char*)buffer;
       bufferStart = buffer = newBuffer;
       bufferEnd = newBuffer + size;
@@ -173,6 +174,8 @@ public:
         *bufferEnd = 0;
       }
     }
+    else
+      bufferEnd = bufferStart;
   }
 
   void removeFront(usize size)
